@@ -62,8 +62,9 @@ var AssembleOutputRegex = regexp.MustCompile(`^\s*##!=>\s*(.*)$`)
 // contain that text) and the rest of the line is retained (e.g., a carriage return).
 var RuleRxRegex = regexp.MustCompile(`(.*?"!?@rx )(.*)(" \\.*)`)
 
-// SecRuleRegex matches any SecRule line.
-var SecRuleRegex = regexp.MustCompile(`\s*SecRule`)
+// SecRuleRegex matches any SecRule line. The directive has to be the first thing on
+// the line, a commented out SecRule is not a rule.
+var SecRuleRegex = regexp.MustCompile(`^\s*SecRule\b`)
 
 // RuleIdFileNameRegex matches the rule ID in a regex-assembly file name (<id>-<chain>.ra).
 // The rule ID is captured in group 1, the optional chain offset in group2,
